@@ -66,6 +66,16 @@ def load(pid, repo):
     MOD, PID, REPO = importlib.import_module(pid), pid, repo
     for attr in ("BOUNDS", "RULE", "cases", "run_case"):
         assert hasattr(MOD, attr), f"{pid}.py lacks {attr}"
+    import _extras
+    if pid in _extras.SCENARIOS and not getattr(MOD, "_extras_added", False):
+        # generic extra scenarios (independence of two objects, falsy payloads): added to the module's own cases
+        own_cases, own_run = MOD.cases, MOD.run_case
+        MOD.cases = lambda tier, seed: itertools.chain(_extras.cases(pid), own_cases(tier, seed))
+        MOD.run_case = lambda case: _extras.run(pid, case) if str(case.get("kind", "")).startswith("x-") else own_run(case)
+        for t in MOD.BOUNDS:
+            if isinstance(MOD.BOUNDS[t], dict):
+                MOD.BOUNDS[t]["generic_extras"] = _extras.DESCRIPTION
+        MOD._extras_added = True
     return MOD
 
 
